@@ -26,6 +26,10 @@ pub enum Handler {
     ReadAllDrop,
     /// answer with a response whose length is not declared (streamed / buffered by the library)
     RespondUnknownLength,
+    /// take every request the client's bytes yield, keep them all, answer them once the client has
+    /// sent everything and nothing more arrives (what is held on behalf of the connection is at
+    /// its largest then)
+    HoldAllThenRespond,
 }
 
 #[derive(Clone, Debug, Serialize, Deserialize)]
@@ -70,6 +74,9 @@ pub struct ChildResult {
     pub timeout: bool,
     pub respond_errs: Vec<String>,
     pub later_conn_served: bool,
+    /// peak of the bytes live in the process during the case, above what was live at its start
+    #[serde(default)]
+    pub live_growth: usize,
 }
 
 // ------------------------------------------------------------------------------------------
@@ -157,6 +164,7 @@ fn run_in_child(case: &RawCase, unix: &tiny_http::Server, unix_path: &str, tcp: 
     let panics_before = vcore::panics::count();
     alloc::MAX_SINGLE.store(0, Ordering::SeqCst);
     alloc::ARMED.store(true, Ordering::SeqCst);
+    let live_before = alloc::reset_peak();
     if case.reset_storm > 0 {
         for _ in 0..case.reset_storm {
             if let Ok(s) = std::net::TcpStream::connect(tcp_addr) {
@@ -243,7 +251,58 @@ fn run_in_child(case: &RawCase, unix: &tiny_http::Server, unix_path: &str, tcp: 
             });
             // handler loop
             let t0 = Instant::now();
+            let mut held: Vec<tiny_http::Request> = vec![];
+            let mut quiet_since: Option<Instant> = None;
+            let hold_all = matches!(case.handler, Handler::HoldAllThenRespond);
             loop {
+                if hold_all {
+                    // keep everything until the client has sent all its bytes and nothing has arrived
+                    // for 60 ms (or 5 s have passed), then answer in order
+                    let all_sent = sent.load(Ordering::SeqCst) >= bytes.len();
+                    match server.recv_timeout(Duration::from_millis(5)) {
+                        Ok(Some(rq)) => {
+                            res.delivered += 1;
+                            held.push(rq);
+                            quiet_since = None;
+                            if t0.elapsed() < Duration::from_secs(5) {
+                                continue;
+                            }
+                        }
+                        _ => {
+                            if quiet_since.is_none() {
+                                quiet_since = Some(Instant::now());
+                            }
+                        }
+                    }
+                    let quiet = quiet_since.map(|q| q.elapsed() >= Duration::from_millis(60)).unwrap_or(false);
+                    if (all_sent && quiet) || t0.elapsed() >= Duration::from_secs(5) || done.load(Ordering::SeqCst) {
+                        alloc::set_harness(false);
+                        let r = std::panic::catch_unwind(std::panic::AssertUnwindSafe(|| {
+                            for rq in held.drain(..) {
+                                let _ = rq.respond(tiny_http::Response::from_string("ok"));
+                            }
+                        }));
+                        alloc::set_harness(true);
+                        let _ = r;
+                        if done.load(Ordering::SeqCst) {
+                            // whatever still comes is answered at once
+                            while let Ok(Some(rq)) = server.try_recv() {
+                                res.delivered += 1;
+                                alloc::set_harness(false);
+                                let _ = std::panic::catch_unwind(std::panic::AssertUnwindSafe(|| {
+                                    let _ = rq.respond(tiny_http::Response::from_string("ok"));
+                                }));
+                                alloc::set_harness(true);
+                            }
+                            break;
+                        }
+                        if t0.elapsed() > Duration::from_secs(20) {
+                            res.timeout = true;
+                            break;
+                        }
+                    }
+                    continue;
+                }
                 let d = done.load(Ordering::SeqCst);
                 if case.vanish && !d {
                     // nothing is handled before the client is gone
@@ -343,6 +402,7 @@ fn run_in_child(case: &RawCase, unix: &tiny_http::Server, unix_path: &str, tcp: 
     }
     alloc::ARMED.store(false, Ordering::SeqCst);
     res.max_alloc = alloc::MAX_SINGLE.load(Ordering::SeqCst);
+    res.live_growth = (alloc::PEAK.load(Ordering::SeqCst) - live_before).max(0) as usize;
     res.panics = vcore::panics::since(panics_before).into_iter().map(|p| (p.thread, p.message, p.location)).collect();
     res
 }
@@ -441,12 +501,23 @@ pub fn c14_test(cp: &mut ChildProc, case: &RawCase) -> Verdict {
             format!("a single allocation of {} bytes was requested although the client had sent only {} bytes (bound {})", res.max_alloc, res.sent, bound),
         );
     }
+    // what is held on behalf of the connection stays in proportion to what it sent: every queued
+    // request costs some hundred bytes of bookkeeping, so the factor is generous
+    let live_bound = (2 << 20) + 128 * res.sent;
+    if res.live_growth > live_bound {
+        return fail(
+            format!("C14/{}/memory-held-beyond-received", case.kind),
+            format!("{} bytes more were live in the server process at the peak of the case than at its start, although the client had sent only {} bytes (bound {})", res.live_growth, res.sent, live_bound),
+        );
+    }
     if !res.later_conn_served {
         return fail(format!("C14/{}/server-stopped-serving", case.kind), "a fresh connection after the case got no answer".to_string());
     }
     let sent_total = case.bytes().len();
     let nontrivial = case.declared_beyond_sent || sent_total >= 64 * 1024 || case.reset_storm > 0 || case.vanish;
     let mut g = if nontrivial { Good::nontrivial() } else { Good::trivial() };
+    let ratio = if res.sent > 0 { res.live_growth / res.sent.max(1) } else { 0 };
+    g = g.class(format!("live-growth/sent<={}", if res.live_growth <= (1 << 20) { "(under 1 MiB)".to_string() } else if ratio <= 8 { "8".to_string() } else if ratio <= 32 { "32".to_string() } else if ratio <= 128 { "128".to_string() } else { "more".to_string() }));
     g = g.class(format!("kind:{}", case.kind)).class_if(case.tcp, "tcp").class_if(res.delivered > 0, "delivered").class(format!("handler:{:?}", case.handler));
     Verdict::Pass(g)
 }
@@ -459,7 +530,7 @@ fn lit(s: &str) -> Piece {
 }
 
 fn handler_strategy() -> BoxedStrategy<Handler> {
-    proptest::sample::select(vec![Handler::RespondNoRead, Handler::DropNoRead, Handler::ReadSomeRespond, Handler::ReadAllRespond, Handler::ReadAllDrop, Handler::RespondUnknownLength, Handler::RespondUnknownLength]).boxed()
+    proptest::sample::select(vec![Handler::RespondNoRead, Handler::DropNoRead, Handler::ReadSomeRespond, Handler::ReadAllRespond, Handler::ReadAllDrop, Handler::RespondUnknownLength, Handler::RespondUnknownLength, Handler::HoldAllThenRespond]).boxed()
 }
 
 pub fn c14_strategy(thorough: bool) -> BoxedStrategy<RawCase> {
@@ -569,5 +640,17 @@ pub fn c14_strategy(thorough: bool) -> BoxedStrategy<RawCase> {
         "GET /first HTTP/1.1\r\nHost: h\r\n\r\nGET /ws HTTP/1.1\r\nHost: h\r\nConnection: upgrade\r\nUpgrade: websocket\r\n\r\n",
         "GET /first HTTP/1.0\r\nConnection: keep-alive\r\n\r\nHEAD /second HTTP/1.1\r\nHost: h\r\nTE: chunked\r\n\r\nGET /v HTTP/2.0\r\n\r\nGET /bad\r\n\r\n",
     ]), handler_strategy(), any::<bool>()).prop_map(|(req, handler, tcp)| RawCase { kind: "vanishing-client".into(), pieces: vec![lit(req)], handler, tcp, declared_beyond_sent: false, reset_storm: 0, vanish: true });
-    prop_oneof![4 => declared, 3 => chunk, 2 => many_headers, 2 => long_line, 2 => te, 5 => mutated, 1 => storm, 2 => repeated, 3 => unusual, 3 => vanishing].boxed()
+    // one request with very many header lines, then a pipeline of small requests, all of them held
+    // unanswered at once: what the first request needed is not needed again for each follower
+    let headers_then_pipeline = (prop_oneof![Just(1000usize), Just(5000usize), Just(20000usize)], prop_oneof![Just(20usize), Just(100usize), Just(300usize)], proptest::sample::select(vec!["a:b\r\n", "x:\r\n", "Cookie: a=b\r\n"]), proptest::sample::select(vec!["GET /s HTTP/1.1\r\n\r\n", "GET /s HTTP/1.1\r\nHost: h\r\n\r\n", "POST /s HTTP/1.1\r\nContent-Length: 2\r\n\r\nab"]), any::<bool>())
+        .prop_map(|(n, m, h, follower, tcp)| RawCase {
+            kind: "headers-then-pipeline".into(),
+            pieces: vec![lit("GET /big HTTP/1.1\r\n"), Piece::Repeat(h.as_bytes().to_vec(), n), lit("\r\n"), Piece::Repeat(follower.as_bytes().to_vec(), m)],
+            handler: Handler::HoldAllThenRespond,
+            tcp,
+            declared_beyond_sent: false,
+            reset_storm: 0,
+            vanish: false,
+        });
+    prop_oneof![4 => declared, 3 => chunk, 2 => many_headers, 2 => long_line, 2 => te, 5 => mutated, 1 => storm, 2 => repeated, 3 => unusual, 3 => vanishing, 2 => headers_then_pipeline].boxed()
 }
